@@ -39,6 +39,36 @@ CLAIMED = {
             "Builder-returned handles are covered through the builder model (see level note).",
             "n <= 4/6, |i| <= 7/10, step in {None,1,2,3}; unknown-count handles only for i>=0, [:] and iteration.",
             "DESIGN.md §5 C16"),
+    "C05": ("TLA+ term algebra HugrWire/HugrStd: TLC enumeration of type/param/arg/op/value terms with their specified wire "
+            "encoding + build/encode/decode/project/re-encode on the real classes (S->C)",
+            "TLC enumerates object-view terms up to nesting depth 2-3 (all type constructors incl. sugar, opaque and definition-backed "
+            "types; 6 params; 6 args; all 21 op kinds and the sugar ops; values incl. std constants and function values), checks the "
+            "algebraic laws (Desugar idempotent, bound preserved, ...) and prints each term with EncOp/EncValS/Desugar; every term is "
+            "built via public constructors, serialized, decoded via the pydantic models, projected attribute by attribute and re-encoded.",
+            "Set-typed fields compared as sets; Conditional/Case/CFG deltas are not data-model attributes; the foreign-document clause is "
+            "covered by the ForeignWrite leg when present (see evidence legs).",
+            "DESIGN.md §5 C05"),
+    "C06": ("TLA+ HugrWire typing operators (DfSig, InnerSig, PortKind, NumOut, CaseInputs, SuccOutputs): TLC laws over all op "
+            "terms + comparison with outer/inner_signature, num_out, port_kind, port_type (S->C)",
+            "TLC enumerates op terms of all 21 kinds + sugar ops over rows incl. empty rows, linear types and a row-polymorphic callee "
+            "whose instantiation changes arity, checks the typing laws, and prints signatures and the kind of every port; each is "
+            "compared with the decoded (and built) op object and through Hugr.port_kind/port_type, incl. the order port.",
+            "Only existing ports are queried; types compared up to the two spellings of sums of empty rows.",
+            "DESIGN.md §5 C06"),
+    "C07": ("TLA+ HugrWire!Bound with the independent law CopyableIffAtoms: TLC over all type terms + type_bound()/serialized bound/"
+            "Array/List/StaticArray on the real classes (S->C)",
+            "TLC checks Bound = C <=> all atomic constituents copyable (stated via Atoms, independently of Bound's recursion) on every "
+            "type term of depth <= 2-3 incl. every from-params index list and look-alike elements with different bounds; each term's "
+            "type_bound(), serialized opaque bound, bound after decode, and std containers over it are compared.",
+            "From-params indices in range naming Type args given as TypeTypeArg; std bound specs read from the repository JSON at run time.",
+            "DESIGN.md §5 C07"),
+    "C14": ("TLA+ HugrStd!InhabitsS / TypeOfS / EncValS: TLC over value expressions + type_(), serialization, Const / load() on the real classes (S->C)",
+            "TLC enumerates value expressions built from the helper constructors to depth 2-3 (widths 0..6, arrays/lists/static arrays "
+            "of every element type, functions, re-bound function bodies) and checks InhabitsS and that the serialized form carries the "
+            "reported type; each is built in Python and type_(), serialized form, defining extension, Const static port and the "
+            "LoadConstant from load() compared.",
+            "General Sum values generated well-typed only.",
+            "DESIGN.md §5 C14"),
 }
 
 NOT_YET = "check not built yet in this round (planned: see DESIGN.md §5); nothing is claimed for it until its TLA+ spec and conformance legs exist"
